@@ -35,7 +35,7 @@ def warmup():
 def enumerate_states(tier, seed):
     states = ps.enumerate_states()
     n_pairs = sum(len(ps.alph(ps.FUNCS.get(n, ps.VARIANTS.get(n))[0])) * len(ps.alph(ps.FUNCS.get(n, ps.VARIANTS.get(n))[1])) for n in ps.all_names())
-    return states, {"bound_completed": "full product of the two primitive alphabets for all 34 functions (+ point_to_ellipsoid surface variant): %d pairs" % n_pairs,
+    return states, {"bound_completed": "full product of the two primitive alphabets for all 34 functions (+ point_to_ellipsoid surface variant): %d pairs; for the 14 polygon/box functions additionally 11 translated copies of the second primitive" % n_pairs,
                     "exhaustive": True}
 
 
@@ -105,9 +105,9 @@ def run_state(desc):
     A = ps.alph(ka)[desc["i"]]
     viol, n_eval, nontriv, undecided = [], 0, 0, 0
     seen = {}
-    for j, B in enumerate(ps.alph(kb)):
-        if ka == kb and name in ("line_to_line", "plane_to_plane") and False:
-            pass
+    shift = desc.get("shift", 0)
+    for j, B0 in enumerate(ps.alph(kb)):
+        B = ps.shifted(B0, shift)
         vs, info = evaluate_pair(name, A, B)
         n_eval += 1
         if info.get("degenerate"):
@@ -120,13 +120,13 @@ def run_state(desc):
                 continue
             v = dict(v)
             v.pop("prop")
-            v["detail"] = dict(v["detail"], i=desc["i"], j=j)
-            v["dsig"] = "%s@i=%d,j=%d" % (v["sig"], desc["i"], j)
+            v["detail"] = dict(v["detail"], i=desc["i"], j=j, shift=shift)
+            v["dsig"] = "%s@i=%d,j=%d" % (v["sig"], desc["i"], j) + ("" if shift == 0 else ",shift=%d" % shift)
             if seen.get(v["sig"], 0) < 4:
                 seen[v["sig"]] = seen.get(v["sig"], 0) + 1
                 viol.append(v)
     sample = None
-    if desc["i"] == 3:
+    if desc["i"] == 3 and shift == 0:
         B = ps.alph(kb)[2]
         try:
             r = ps.call(name, A, B)
